@@ -215,6 +215,8 @@ type Prior struct {
 	// FailAfter > 0: the source of this earlier stream fails (injected error)
 	// after that many bytes, so the Reader is left in a source-error state.
 	FailAfter int `json:"fail_after,omitempty"`
+	// NoMulti (gzip): Multistream(false) was switched on for this earlier use.
+	NoMulti bool `json:"no_multi,omitempty"`
 }
 
 // RScen is one Reader history: optional earlier uses, then the stream under test.
@@ -559,6 +561,9 @@ func RunR(t *kern.Task, log *kern.Log, sc *RScen, fast bool) (rec *RRec) {
 			}
 		} else if e := rd.reset(psrc, pd); e != nil {
 			continue
+		}
+		if pr.NoMulti && rd.multi != nil {
+			rd.multi(false)
 		}
 		var dummy RRec
 		drain(rd.rd, pr.Reads, pr.Take, maxOut, &dummy)
